@@ -429,6 +429,10 @@ pub fn run_supply_check(check: &str, tier: Tier, seed: u64, index: u64, scratch:
         // the caller asks for a named summary
         t.step_name = Some(gen::simple_name(&mut fr));
     }
+    // storage that fails now and then while the faulted world is verified (not while the baseline is)
+    if fr.chance(1, 12) {
+        t.read_eio = Some(*fr.pick(&[100u64, 300, 600]));
+    }
     let baseline_trace = t.clone();
     let (primary, secondary) = faults_for(check);
     let n_faults = 1 + fr.weighted(&[60, 30, 10]);
